@@ -447,8 +447,13 @@ class DefaultParser(Parser):
     def __call__(self, input: str, /) -> Sentence:
         if isinstance(input, Sentence):
             return input
-        with ParseContext(input, self.table, self.predicates) as context:
-            return self._read(context)
+        try:
+            with ParseContext(input, self.table, self.predicates) as context:
+                return self._read(context)
+        except RecursionError:
+            # reading is recursive; the recursion limit can be hit after the
+            # last character is consumed, where close() has nothing to report
+            raise ParseError('Input is nested too deeply to parse') from None
 
     _methodmap = MapProxy({
         Operator: '_read_operated',
